@@ -132,6 +132,43 @@ static void pool_case(Case& c) {
     c.nontrivial = kinds >= 3 && h.suitable.size() >= 1;
 }
 
+// SoilPool at a single cell: dispersers sent to the soil, released, aged.
+static void soil_case(Case& c) {
+    Rng& rng = c.rng;
+    std::ostream& out = c.out;
+    int ncoh = rng.in(1, 4);
+    std::vector<IRaster> rasters((size_t)ncoh, IRaster(1, 1, 0));
+    for (auto& r : rasters) r(0, 0) = rng.coin(40) ? 0 : rng.in(0, 9);
+    Env env; DRaster weather(1, 1, 1.0); env.update_weather_coefficient(weather);
+    bool gen_stoch = rng.coin(35), est_stoch = rng.coin(60);
+    int pest64 = rng.in(0, 64);
+    SoilPool<IRaster, DRaster, int, Provider> soil(rasters, env, gen_stoch, est_stoch, pest64 / 64.0);
+    Provider prov(rng.next());
+    auto cohorts = [&] { std::ostringstream o; for (size_t k = 0; k < rasters.size(); k++) o << (k ? "," : "") << rasters[k](0, 0); return o.str(); };
+    out << "hp.soil.init => " << cohorts() << "\n";
+    stats.add(gen_stoch ? "soil_release_stochastic" : "soil_release_deterministic");
+    int nops = rng.in(4, 12);
+    for (int op = 0; op < nops; op++) {
+        int w64 = rng.coin(15) ? 0 : (rng.coin(25) ? 64 : rng.in(0, 64)); weather(0, 0) = w64 / 64.0;
+        int kind = rng.in(0, 2);
+        if (kind == 0) {
+            int n = rng.in(0, 6); std::ostringstream us;
+            for (int k = 0; k < n; k++) { int u64 = rng.in(0, 63); if (est_stoch) prov.soil().push_uniform_64ths(u64); us << (k ? "," : "") << rat64(u64); }
+            soil.dispersers_to(n, 0, 0, prov.soil()); prov.soil().script.clear();
+            out << "hp.soil.to " << est_stoch << " " << rat64(pest64) << " " << rat64(w64) << " " << (n ? us.str() : std::string("-")) << " => " << cohorts() << "\n";
+            stats.add("op_soil_to");
+        } else if (kind == 1) {
+            int ret = 0; std::string e = err_kind([&] { ret = soil.dispersers_from(0, 0, prov.soil()); });
+            out << "hp.soil.from " << (gen_stoch ? 0 : 1) << " " << rat64(w64) << " => " << (e.empty() ? std::to_string(ret) : e) << " | " << cohorts() << "\n";
+            stats.add("op_soil_from");
+        } else {
+            soil.next_step(op);
+            out << "hp.soil.next => " << cohorts() << "\n"; stats.add("op_soil_next");
+        }
+    }
+    c.nontrivial = true;
+}
+
 int main(int argc, char** argv) {
     std::ios::sync_with_stdio(false);
     std::string mode = argc > 1 ? argv[1] : "pool";
@@ -140,6 +177,7 @@ int main(int argc, char** argv) {
     long count = argc > 4 ? std::stol(argv[4]) : 100;
     if (!selftest_uniform()) { std::cerr << "SELFTEST FAILED: libstdc++ uniform_real_distribution does not consume one 64-bit value\n"; return 3; }
     if (mode == "pool") run_cases("h_host", mode, seed, first, count, pool_case);
+    if (mode == "soil") run_cases("h_host", mode, seed, first, count, soil_case);
     stats.dump("h_host");
     return 0;
 }
